@@ -156,8 +156,9 @@ def pipe_judge(ctx, cases, label, clauses, mech=True):
         ctx.drift.append("%s run %d: %s" % (label, idx, why))
     if mech:
         pipe_mechanism(ctx, obs, obs_path, label)
-    if obs and len(ctx.samples) < 6:
-        r = obs[len(obs) // 3]
+    okobs = [r for r in obs if r.get("st") == "ok"]
+    if okobs and len(ctx.samples) < 6:
+        r = okobs[len(okobs) // 3]
         ctx.samples.append({"source": label, "W": r["W"], "N": r["N"], "mode": r["mode"],
                             "schedule": r.get("sched", [])[:60],
                             "events": ["%s(%s,%s)" % (e["e"], e["w"], e["x"]) for e in r["ev"][:60]]})
